@@ -46,16 +46,19 @@ def observe(entry, inf):
     infos = set(entry.infos())
     rec = tlaval.Rec(val=from_val(entry.value(), inf), tags=frozenset(infos))
     bad = []
-    if len(entry) != len(infos):
-        bad.append(f"len()={len(entry)} but {len(infos)} tags")
-    listed = list(iter(entry))
-    if sorted((from_val(c.value, inf), c.info) for c in listed) != sorted((rec["val"], t) for t in infos):
-        bad.append(f"iter() yields {listed}")
-    one = entry.info()
-    if (one is None) != (not infos) or (one is not None and one not in infos):
-        bad.append(f"info()={one!r} with tags {sorted(infos)}")
-    if entry.is_infinite() != (abs(rec["val"]) == INF):
-        bad.append("is_infinite() disagrees with value()")
+    try:   # the secondary observers: one that fails is an inconsistency, not a reason to stop
+        if len(entry) != len(infos):
+            bad.append(f"len()={len(entry)} but {len(infos)} tags")
+        listed = list(iter(entry))
+        if sorted((from_val(c.value, inf), c.info) for c in listed) != sorted((rec["val"], t) for t in infos):
+            bad.append(f"iter() yields {listed}")
+        one = entry.info()
+        if (one is None) != (not infos) or (one is not None and one not in infos):
+            bad.append(f"info()={one!r} with tags {sorted(infos)}")
+        if entry.is_infinite() != (abs(rec["val"]) == INF):
+            bad.append("is_infinite() disagrees with value()")
+    except Exception as err:  # pylint: disable=broad-except
+        bad.append(f"an observer fails: {type(err).__name__}: {err}")
     return rec, bad
 
 
